@@ -43,7 +43,10 @@ def limit_tree(r):
     kinds = [r.choice("qbo") for _ in range(r.choice([5, 6, 6]))]
     if kinds[-1] == "q" and r.random() < 0.7:
         kinds[-1] = r.choice("bo")
-    inner = [("para", [("text", "deep word")])]
+    inner = [("para", [("text", r.choice(["deep word", "deep", "a deep word here", "w"]))])]
+    if r.random() < 0.6:
+        # blocks of every kind inside the innermost container: what the parser switches off at the limit are containers only
+        inner += r.sample([("hr",), ("heading", 2, [("text", "deep head")]), ("fenced", "```", "", "deep code\n"), ("para", [("text", "last deep")]), ("hr",)], r.randint(1, 3))
     for k in reversed(kinds):
         inner = [("quote", inner)] if k == "q" else [("list", k == "o", 1, False, [inner], "." if k == "o" else "-")]
     tail = [("para", [("text", "sep")]),
